@@ -65,8 +65,8 @@ func (s *vdStatter) Raw(stat string, v string, r float32, t ...cstatsd.Tag) erro
 	return nil
 }
 func (s *vdStatter) NewSubStatter(string) cstatsd.SubStatter { return nil }
-func (s *vdStatter) SetPrefix(string)                       {}
-func (s *vdStatter) Close() error                           { return nil }
+func (s *vdStatter) SetPrefix(string)                        {}
+func (s *vdStatter) Close() error                            { return nil }
 
 func vdRefValue(p uint, v float64) string {
 	if v == math.MaxFloat64 {
